@@ -74,6 +74,19 @@ def shapes():
     S.append(("dyndep_claims_other_output", [
         Variant("v0", [Stmt("gen", ex=["s"]), Stmt("out", ex=["in"], oo=["ddx"], dyndep="ddx"), Stmt("other", ex=["gen"])]),
     ]))
+    # a statement with deps whose recorded list is EMPTY (its command reports nothing), in a project with a long history of
+    # deps records: the tools that open the deps log recompact it
+    S.append(("deps_empty_list", [
+        Variant("v0", [Stmt("obj", ex=["src"], deps="gcc"), Stmt("obj2", ex=["src2"], hidden=["hdr"], deps="gcc"),
+                       Stmt("m", ex=["src3"], deps="msvc"), Stmt("exe", ex=["obj", "obj2", "m"])]),
+    ]))
+    # a generator statement WITHOUT restat whose command leaves its output alone when nothing changed (the usual configure
+    # step), with dependents: the dry run must list exactly what the build runs
+    _g = Stmt("cfg.h", ex=["cfg.in"], generator=True)
+    _g.dyn_restat = True      # the tool writes only on change; the rule does not say restat
+    S.append(("generator_leaves_output_alone", [
+        Variant("v0", [_g, Stmt("use", ex=["cfg.h"]), Stmt("top", ex=["use", "s"])]),
+    ]))
     S.append(("no_input_edge", [
         Variant("v0", [Stmt("ver.h"), Stmt("obj", ex=["src"], im=["ver.h"]), Stmt("exe", ex=["obj"])]),
     ]))
@@ -109,6 +122,14 @@ def _common_ops(variants):
             ops.append({"op": "write", "path": st.rsp[0], "content": st.rsp[1], "label": "response file %s kept by a failed build" % st.rsp[0]})
     for i in range(1, len(variants)):
         ops.append({"op": "variant", "to": i, "label": "manifest:=" + variants[i].name})
+    for st in v0.stmts:
+        if st.deps and not st.hidden:
+            ops.append({"op": "dupdeps", "path": st.id, "content": "1100", "label": "1100 more deps records of %s (long history)" % st.id})
+            break
+    for st in v0.stmts:
+        if getattr(st, "dyn_restat", False):
+            for x in st.ex:
+                ops.append({"op": "touch", "path": x, "label": "touch " + x})
     build = len(ops)
     ops.append(ninja_op(j=2))
     cmd = [st for st in v0.stmts if not st.phony]
